@@ -1,6 +1,302 @@
-"""Property-specific side engines (exhaustive checks of build constants, Kani twins).
-Each returns {'report':..., 'backends':[...], 'violations':[...], 'exhaustive': {...}} or None."""
+"""Property-specific side engines.
+
+* exhaustive evaluation of the build-time constants (Zobrist tables for C05, magic tables for C11)
+  -- closed finite statements about generated files, reported separately from the deductive
+  obligations (`exhaustive: true`), never counted as proved-for-every-draw;
+* Kani (CBMC) complete proofs of the closed knight/king table generators for C11;
+* interface check: the contract text of MagicTable::get_*_targets seen by the move generator
+  (u4_magic_iface.vrs) is the one proved in unit_magic (u4_magic.vrs).
+
+Each returns {'report':..., 'backends':[...], 'violations':[...], 'exhaustive': {...}} or None.
+Scratch copies live under a fresh temporary directory outside /repo and /verif and are deleted
+before returning.
+"""
+import glob
+import hashlib
+import json
+import os
+import re
+import shutil
+import subprocess
+import tempfile
+import time
+
+from . import driver as dr
+
+MASK64 = (1 << 64) - 1
+
+
+# --------------------------------------------------------------------------- helpers
+def _out_dirs(repo):
+    """OUT_DIRs of existing builds of the crate under <repo>/target (the constants the test suite runs with)."""
+    res = []
+    for p in glob.glob(os.path.join(repo, 'target', '*', 'build', 'chess-*', 'out')):
+        if os.path.exists(os.path.join(p, 'zobrist_table.rs')) and os.path.exists(os.path.join(p, 'magic_table.rs')):
+            res.append(p)
+    return sorted(res)
+
+
+def _fresh_build(repo):
+    """Build a scratch copy (build script runs => a fresh draw of all random tables). Returns (tmpdir, out_dir)."""
+    tmp = tempfile.mkdtemp(prefix='vx_build_')
+    dst = os.path.join(tmp, 'repo')
+    subprocess.run(['rsync', '-a', '--exclude', 'target', '--exclude', '.git', repo + '/', dst + '/'], check=True)
+    env = dict(os.environ, CARGO_NET_OFFLINE='true', CARGO_TARGET_DIR=os.path.join(tmp, 'target'))
+    p = subprocess.run(['cargo', 'build', '--offline', '--lib'], cwd=dst, env=env, stdout=subprocess.PIPE,
+                       stderr=subprocess.STDOUT, text=True, timeout=1500)
+    outs = glob.glob(os.path.join(tmp, 'target', 'debug', 'build', 'chess-*', 'out'))
+    outs = [o for o in outs if os.path.exists(os.path.join(o, 'zobrist_table.rs'))]
+    if p.returncode != 0 or not outs:
+        shutil.rmtree(tmp, ignore_errors=True)
+        raise dr.Undecided('scratch build of the crate failed: ' + p.stdout[-800:])
+    return tmp, outs[0]
+
+
+def _parse_zobrist(path):
+    t = open(path).read()
+    m = re.search(r'ZOBRIST_PIECES_TABLE[^=]*=\s*\[(.*?)\n\];', t, re.S)
+    pieces = [int(x) for x in re.findall(r'\b(\d+)\b(?=\s*[,\]])', re.sub(r'//.*', '', m.group(1)))]
+    m = re.search(r'ZOBRIST_CASTLING_RIGHTS_TABLE[^=]*=\s*\[(.*?)\n\];', t, re.S)
+    cr = [int(x) for x in re.findall(r'\b(\d+)\b', re.sub(r'//.*', '', m.group(1)))]
+    m = re.search(r'ZOBRIST_EN_PASSANT_TABLE[^=]*=\s*\[(.*?)\n\];', t, re.S)
+    ep = [int(x) for x in re.findall(r'\b(\d+)\b', re.sub(r'//.*', '', m.group(1)))]
+    return pieces, cr, ep
+
+
+def check_zobrist(out_dir):
+    """tables_distinct() of u2b_board.vrs, evaluated on one generated file."""
+    pieces, cr, ep = _parse_zobrist(os.path.join(out_dir, 'zobrist_table.rs'))
+    problems = []
+    if len(pieces) != 6 * 64 * 2 or len(cr) != 16 or len(ep) != 64:
+        return {'file': out_dir, 'ok': False, 'problems': ['unexpected table sizes %d/%d/%d' % (len(pieces), len(cr), len(ep))], 'cases': 0}
+    # pieces[p][sq][color]
+    def pk(p, s, c):
+        return pieces[(p * 64 + s) * 2 + c]
+    cases = 0
+    for s in range(64):
+        keys = [pk(p, s, c) for p in range(6) for c in range(2)]
+        cases += len(keys)
+        if any(k == 0 for k in keys):
+            problems.append('zero piece key on square %d' % s)
+        if len(set(keys)) != len(keys):
+            problems.append('two (piece,colour) share a key on square %d' % s)
+    cases += 16 + 64
+    if len(set(cr)) != 16:
+        problems.append('two castling-rights sets share a key')
+    if any(k == 0 for k in ep) or len(set(ep)) != 64:
+        problems.append('en-passant keys not distinct / non-zero')
+    # stronger than the property needs: all 848 constants pairwise distinct
+    allk = pieces + cr + ep
+    return {'file': out_dir, 'ok': not problems, 'problems': problems, 'cases': cases,
+            'all_848_pairwise_distinct': len(set(allk)) == len(allk)}
+
+
+# ---- magic tables ---------------------------------------------------------
+ROOK_D = [(1, 0), (0, -1), (-1, 0), (0, 1)]
+BISHOP_D = [(1, 1), (1, -1), (-1, -1), (-1, 1)]
+
+
+def _ray_attacks(sq, occ, deltas):
+    r0, f0 = divmod(sq, 8)
+    res = 0
+    for dr_, df in deltas:
+        r, f = r0 + dr_, f0 + df
+        while 0 <= r < 8 and 0 <= f < 8:
+            b = 1 << (r * 8 + f)
+            res |= b
+            if occ & b:
+                break
+            r += dr_
+            f += df
+    return res
+
+
+def _relmask(sq, deltas):
+    r0, f0 = divmod(sq, 8)
+    res = 0
+    for dr_, df in deltas:
+        r, f = r0 + dr_, f0 + df
+        while 0 <= r + dr_ < 8 and 0 <= f + df < 8:
+            res |= 1 << (r * 8 + f)
+            r += dr_
+            f += df
+    return res
+
+
+def _parse_magics(path):
+    t = open(path).read()
+    res = {}
+    for name in ('ROOK', 'BISHOP'):
+        m = re.search(r'%s_MAGICS[^=]*=\s*&\[(.*?)\];' % name, t, re.S)
+        ents = re.findall(r'mask:\s*0x([0-9A-Fa-f]+),\s*magic:\s*0x([0-9A-Fa-f]+),\s*shift:\s*(\d+),\s*offset:\s*(\d+)', m.group(1))
+        size = int(re.search(r'%s_TABLE_SIZE:\s*usize\s*=\s*(\d+);' % name, t).group(1))
+        res[name] = ([(int(a, 16), int(b, 16), int(c), int(d)) for a, b, c, d in ents], size)
+    return res
+
+
+def check_magics(out_dir):
+    """magics_ok of u4_magic.vrs + table content, evaluated exhaustively on one generated file."""
+    mg = _parse_magics(os.path.join(out_dir, 'magic_table.rs'))
+    problems = []
+    cases = 0
+    for name, deltas in (('ROOK', ROOK_D), ('BISHOP', BISHOP_D)):
+        ents, size = mg[name]
+        if len(ents) != 64:
+            problems.append('%s: %d entries' % (name, len(ents)))
+            continue
+        running = 0
+        for sq, (mask, magic, shift, offset) in enumerate(ents):
+            if mask != _relmask(sq, deltas):
+                problems.append('%s[%d]: mask is not the relevant-blocker mask' % (name, sq))
+            bits = bin(mask).count('1')
+            if shift != 64 - bits or not (0 < shift < 64):
+                problems.append('%s[%d]: shift %d != 64 - popcount(mask)' % (name, sq, shift))
+            if offset != running:
+                problems.append('%s[%d]: offset %d is not the running sum %d' % (name, sq, offset, running))
+            span = 1 << (64 - shift)
+            running += span
+            slots = {}
+            sub = 0
+            while True:
+                idx = ((sub * magic) & MASK64) >> shift
+                att = _ray_attacks(sq, sub, deltas)
+                cases += 1
+                if idx >= span:
+                    problems.append('%s[%d]: index out of range' % (name, sq))
+                    break
+                if slots.setdefault(idx, att) != att:
+                    problems.append('%s[%d]: destructive collision for blockers %#x' % (name, sq, sub))
+                    break
+                sub = (sub - mask) & mask
+                if sub == 0:
+                    break
+        if running != size:
+            problems.append('%s: TABLE_SIZE %d != sum of spans %d' % (name, size, running))
+    return {'file': out_dir, 'ok': not problems, 'problems': problems[:10], 'cases': cases}
+
+
+# ---- Kani ------------------------------------------------------------------
+KANI_HARNESSES = ['knight_table_matches_spec', 'king_table_matches_spec', 'ordered_squares_file_major', 'to_algebraic_matches_rank_file']
+
+
+def run_kani(repo):
+    tmp = tempfile.mkdtemp(prefix='vx_kani_')
+    try:
+        dst = os.path.join(tmp, 'repo')
+        subprocess.run(['rsync', '-a', '--exclude', 'target', '--exclude', '.git', repo + '/', dst + '/'], check=True)
+        tgt = os.path.join(dst, 'src', 'move_generator', 'targets.rs')
+        with open(tgt, 'a') as f:
+            f.write('\n#[cfg(kani)] #[path = "%s"] mod verif_kani_tables;\n' % os.path.join(dr.VERIF, 'kani', 'tables.rs'))
+        env = dict(os.environ, CARGO_NET_OFFLINE='true')
+        cmd = ['cargo', 'kani']
+        for h in KANI_HARNESSES:
+            cmd += ['--harness', h]
+        cmd += ['-j', '4', '--output-format', 'terse']
+        t0 = time.time()
+        p = subprocess.run(cmd, cwd=dst, env=env, stdout=subprocess.PIPE, stderr=subprocess.STDOUT, text=True, timeout=2400)
+        out = p.stdout
+        res = {}
+        failed = set(x.split('::')[-1] for x in re.findall(r'Verification failed for - (\S+)', out))
+        m = re.search(r'Complete - (\d+) successfully verified harnesses, (\d+) failures, (\d+) total', out)
+        for h in KANI_HARNESSES:
+            if h in failed:
+                res[h] = 'FAILED'
+            elif m and int(m.group(3)) == len(KANI_HARNESSES) and int(m.group(1)) + int(m.group(2)) == len(KANI_HARNESSES):
+                res[h] = 'SUCCESSFUL'
+            else:
+                res[h] = 'UNKNOWN'
+        return {'cmd': 'CARGO_NET_OFFLINE=true ' + ' '.join(cmd), 'results': res, 'wall_s': round(time.time() - t0, 1),
+                'rc': p.returncode, 'tail': out[-1500:]}
+    finally:
+        shutil.rmtree(tmp, ignore_errors=True)
+
+
+# ---- interface consistency ------------------------------------------------------
+def iface_consistent():
+    """The contract of get_rook_targets / get_bishop_targets / new in u4_magic_iface.vrs must be the text
+    proved in u4_magic.vrs."""
+    a = open(os.path.join(dr.CONTRACTS, 'u4_magic_iface.vrs')).read()
+    b = open(os.path.join(dr.CONTRACTS, 'u4_magic.vrs')).read()
+    out = []
+    for fn in ('get_rook_targets', 'get_bishop_targets'):
+        ma = re.search(r'fn %s\b.*?requires(.*?)ensures(.*?)\{' % fn, a, re.S)
+        mb = re.search(r'MagicTable::%s\b.*?requires(.*?)ensures(.*?)//@' % fn, b, re.S)
+        if not ma or not mb:
+            out.append('%s: contract not found in one of the templates' % fn)
+            continue
+        na = (dr.norm(ma.group(1)).rstrip(', '), dr.norm(ma.group(2)).rstrip(', '))
+        nb = (dr.norm(mb.group(1)).rstrip(', '), dr.norm(mb.group(2)).rstrip(', '))
+        if na != nb:
+            out.append('%s: interface %r differs from proved %r' % (fn, na, nb))
+    return out
+
+
+def _viol(pid, unit, fn, kind, clause, text, extra):
+    os.makedirs(dr.REPLAY, exist_ok=True)
+    fl = {'fn': fn, 'kind': kind, 'clause': clause, 'rendered': text, 'has_input': bool(extra.get('has_input'))}
+    oid = dr.obligation_id(unit, fl)
+    path = os.path.join(dr.REPLAY, '%s-%s.json' % (pid, hashlib.sha256(oid.encode()).hexdigest()[:10]))
+    with open(path, 'w') as f:
+        json.dump({'property': pid, 'failed_obligation': oid, 'verifier_output': text, **extra}, f, indent=1)
+    fl['replay'] = path
+    return {'unit': unit, 'fl': fl}
 
 
 def run(pid, cfg, tier, seed):
+    repo = dr.REPO
+    if pid == 'C05':
+        rep = {'zobrist_distinctness': []}
+        viol = []
+        dirs = _out_dirs(repo)
+        tmp = None
+        try:
+            if tier == 'thorough' or not dirs:
+                tmp, od = _fresh_build(repo)
+                dirs = dirs + [od]
+            for d in dirs:
+                r = check_zobrist(d)
+                r['file'] = d if tmp is None or not d.startswith(tmp) else '<fresh scratch build>/out'
+                rep['zobrist_distinctness'].append(r)
+                if not r['ok']:
+                    viol.append(_viol(pid, 'build-constants', 'zobrist_table.rs', 'exhaustive', 'tables_distinct()',
+                                      '; '.join(r['problems']), {'has_input': True, 'generated_file': r['file'],
+                                                                 'note': 'the generated Zobrist constants of this build are not pairwise distinct / non-zero'}))
+        finally:
+            if tmp:
+                shutil.rmtree(tmp, ignore_errors=True)
+        return {'report': rep, 'backends': ['native-exhaustive(python)'], 'violations': viol,
+                'exhaustive': {'what': 'tables_distinct() on every generated zobrist_table.rs found (and a fresh scratch build in the thorough tier)',
+                               'files': len(rep['zobrist_distinctness']), 'cases': sum(r['cases'] for r in rep['zobrist_distinctness'])}}
+    if pid == 'C11':
+        rep = {'magic_constants': [], 'kani': None, 'interface': iface_consistent()}
+        viol = []
+        if rep['interface']:
+            raise dr.Undecided('magic-table interface contract drifted: ' + '; '.join(rep['interface']))
+        dirs = _out_dirs(repo)
+        tmp = None
+        try:
+            if tier == 'thorough' or not dirs:
+                tmp, od = _fresh_build(repo)
+                dirs = dirs + [od]
+            for d in dirs:
+                r = check_magics(d)
+                r['file'] = d if tmp is None or not d.startswith(tmp) else '<fresh scratch build>/out'
+                rep['magic_constants'].append(r)
+                if not r['ok']:
+                    viol.append(_viol(pid, 'build-constants', 'magic_table.rs', 'exhaustive', 'magics_ok',
+                                      '; '.join(r['problems']), {'has_input': True, 'generated_file': r['file']}))
+        finally:
+            if tmp:
+                shutil.rmtree(tmp, ignore_errors=True)
+        k = run_kani(repo)
+        rep['kani'] = k
+        for h, v in k['results'].items():
+            if v == 'FAILED':
+                viol.append(_viol(pid, 'kani', 'targets::' + h, 'kani-assertion', h, k['tail'],
+                                  {'has_input': False, 'checker_cmd': k['cmd']}))
+            elif v != 'SUCCESSFUL':
+                raise dr.Undecided('Kani harness %s did not finish: %s' % (h, k['tail'][-400:]))
+        return {'report': rep, 'backends': ['kani-cbmc', 'native-exhaustive(python)'], 'violations': viol,
+                'exhaustive': {'what': 'magics_ok + table content for all 64 squares x all subsets of the relevance mask (rook and bishop) on every generated magic_table.rs found',
+                               'files': len(rep['magic_constants']), 'cases': sum(r['cases'] for r in rep['magic_constants'])}}
     return None
